@@ -476,6 +476,9 @@ func (t *c08GoTr) callee(env map[types.Object]c08Bind, c *ast.CallExpr) (*ast.Fu
 		if len(fd.Recv.List) != 1 || len(fd.Recv.List[0].Names) != 1 {
 			return nil, nil, t.errf("helper method %s has no named receiver", fd.Name.Name)
 		}
+		if _, isPtr := fd.Recv.List[0].Type.(*ast.StarExpr); !isPtr {
+			return nil, nil, t.errf("the receiver of helper method %s is not a pointer (it would operate on a copy of the lock)", fd.Name.Name)
+		}
 		cenv[t.info.Defs[fd.Recv.List[0].Names[0]]] = c08Bind{kind: "lock"}
 	}
 	var params []*ast.Ident
@@ -717,7 +720,18 @@ func c08GoBody(fd *ast.FuncDecl, atomicName string, info *types.Info, decls map[
 	return t.ops, nil
 }
 
-func c08Facts() (string, error) {
+// c08Facts never takes the harness down: a crash of the reader on source it was not written for is
+// a broken tie like any other untranslatable construct.
+func c08Facts() (text string, err error) {
+	defer func() {
+		if r := recover(); r != nil {
+			text, err = "", fmt.Errorf("the fact reader crashed on the current source: %v", r)
+		}
+	}()
+	return c08FactsRaw()
+}
+
+func c08FactsRaw() (string, error) {
 	repo := os.Getenv("VERIF_REPO")
 	if repo == "" {
 		repo = "/repo"
@@ -776,8 +790,11 @@ func c08Facts() (string, error) {
 		case *ast.FuncDecl:
 			switch {
 			case d.Recv != nil && (d.Name.Name == "Acquire" || d.Name.Name == "TryToAcquire" || d.Name.Name == "Release"):
-				st, ok := d.Recv.List[0].Type.(*ast.StarExpr)
-				if id, ok2 := st.X.(*ast.Ident); !ok || !ok2 || id.Name != "Spinlock" {
+				st, isPtr := d.Recv.List[0].Type.(*ast.StarExpr)
+				if !isPtr {
+					return "", fmt.Errorf("the receiver of Spinlock method %s is not a pointer (a value receiver operates on a private copy of the lock word)", d.Name.Name)
+				}
+				if id, ok2 := st.X.(*ast.Ident); !ok2 || id.Name != "Spinlock" {
 					return "", fmt.Errorf("%s: receiver is not *Spinlock", d.Name.Name)
 				}
 				if bodies[d.Name.Name], err = c08GoBody(d, atomicName, info, helperDecls); err != nil {
